@@ -1,4 +1,6 @@
 import SnowModel.Drv.Util
+import SnowModel.Drv.C11
+import SnowModel.Drv.C15
 import SnowModel.Drv.C07
 import SnowModel.Drv.C13
 import SnowModel.Drv.C16
@@ -17,6 +19,8 @@ def dispatch (j : Json) : Except String Json := do
   else if m.startsWith "c16." then SnowModel.Drv.C16.handle m j
   else if m.startsWith "c13." then SnowModel.Drv.C13.handle m j
   else if m.startsWith "c07." then SnowModel.Drv.C07.handle m j
+  else if m.startsWith "c15." then SnowModel.Drv.C15.handle m j
+  else if m.startsWith "c11." then SnowModel.Drv.C11.handle m j
   else throw s!"unknown method {m}"
 
 partial def loop (hin hout : IO.FS.Stream) : IO Unit := do
